@@ -30,6 +30,7 @@ import (
 	"runtime"
 	"runtime/debug"
 	"runtime/metrics"
+	"sort"
 	"strings"
 	"sync/atomic"
 	"syscall"
@@ -219,61 +220,47 @@ func disarm() { atomic.AddUint64(&wdSeq, 1) }
 
 // ---------------------------------------------------------------- allocation bound
 
+// limit is the allocation bound of one target: A*len + Q*len^2 + E*expanded + B bytes
+// (expanded = length of the harness's own gzip expansion, UnmarshalGzipped only).
 type limit struct {
-	A uint64 // bytes per input byte
-	Q uint64 // divisor of the len^2 term (0 = no quadratic term)
-	B uint64 // fixed cap
+	A uint64  // bytes per input byte
+	Q float64 // bytes per squared input byte (0 = the target is linear on the unchanged tree)
+	E uint64  // bytes per expanded byte
+	B uint64  // fixed cap
 }
 
-// limits is the allocation bound per decoder group, derived from the algorithms:
-//
-//	wkb-bytes   Unmarshal / Scan*: <= 100 pre-allocated slots (24 B) per 9-byte multi
-//	            header (267 B/B), 16 B per 16-byte point. A multi-line string (multi-point,
-//	            multi-polygon) member may itself be a one-member multi-* (ScanLineString
-//	            accepts it), and the members of the outer one are re-scanned from
-//	            overlapping offsets: 24 B per level per re-scan = 0.15*len^2 cumulative
-//	            (peak memory stays linear). Hence the len^2/2 term.
-//	wkb-stream  NewDecoder: <= 10 000 points (160 KB) once + 100 slots (<= 2400 B) per 9-byte
-//	            nesting level, 8-byte scratch per Decode; no re-scan.
-//	wkt         regexp match index slices (56 B per 3-byte "),("), 16 B per comma in a
-//	            point list, one small slice per collection level; no quadratic term.
-//	json        encoding/json into interface{} trees for properties (<= ~64 B/B); nested
-//	            geometry collections rebuild Geometry() at every level: 40 B per level per
-//	            level = 0.01*len^2. Hence len^2/8.
-//	bson        as json, plus the driver copies every embedded document once per nesting
-//	            level (~len^2/60). Hence len^2/8.
-//	mvt         one Feature (~170 B) per >= 9-byte feature message, 16 B per 2-byte point,
-//	            map bucket per 2-byte tag pair.
-//	mvt-gz      gzip expands <= 1032x and ReadAll grows by doubling; the tile decoder then
-//	            works on the expanded bytes: 4096*len + 320*expanded + 1 MiB.
-//
-// The caps that matter are 3-5 orders of magnitude away: dropping MaxPointsAlloc
-// turns a 9-byte input into a 64 GiB request.
-var limits = map[string]limit{
-	"wkb-bytes":  {512, 2, 1 << 20},
-	"wkb-stream": {512, 0, 1 << 20},
-	"wkt":        {256, 0, 1 << 20},
-	"json":       {512, 8, 1 << 20},
-	"bson":       {512, 8, 1 << 20},
-	"mvt":        {256, 0, 1 << 20},
-	"mvt-gz":     {4096, 0, 1 << 20},
+// The per-target table is in limits_test.go (measured, see the comment there).
+
+func limitOf(t *target) limit {
+	l, ok := targetLimits[t.name]
+	if !ok {
+		panic("no allocation limit for target " + t.name)
+	}
+	return l
 }
 
-func (l limit) formula(group string) string {
+func init() {
+	for i := range allTargets {
+		limitOf(&allTargets[i])
+	}
+}
+
+func (l limit) formula() string {
 	f := fmt.Sprintf("%d*len", l.A)
 	if l.Q != 0 {
-		f += fmt.Sprintf(" + len^2/%d", l.Q)
+		f += fmt.Sprintf(" + %g*len^2", l.Q)
 	}
-	if group == "mvt-gz" {
-		f += " + 320*expanded"
+	if l.E != 0 {
+		f += fmt.Sprintf(" + %d*expanded", l.E)
 	}
 	return f + fmt.Sprintf(" + %d", l.B)
 }
 
+// bound without the expanded term.
 func (l limit) bound(n uint64) uint64 {
 	b := l.A*n + l.B
 	if l.Q != 0 {
-		b += n * n / l.Q
+		b += uint64(l.Q * float64(n) * float64(n))
 	}
 	return b
 }
@@ -295,15 +282,37 @@ const (
 var (
 	allocSample = []metrics.Sample{{Name: "/gc/heap/allocs:bytes"}}
 	callSeq     uint64
-	// headroom: per decoder group the largest screened allocation as a fraction of its bound
+	// headroom: per target the largest screened allocation as a fraction of its bound
 	// (in 1/1000), with the input length it was seen on; reported as evidence notes.
 	headroom = map[string][2]uint64{}
 )
 
 func noteHeadroom() {
-	for g, h := range headroom {
-		stats.Note("alloc_max_permille_of_bound:"+g, fmt.Sprintf("%d permille (input of %d bytes)", h[0], h[1]))
+	// one note per codec family: the five targets that came closest to their bound
+	type hr struct {
+		name string
+		pm   uint64
+		n    uint64
 	}
+	by := map[string][]hr{}
+	for i := range allTargets {
+		t := &allTargets[i]
+		if h, ok := headroom[t.name]; ok {
+			by[t.family] = append(by[t.family], hr{t.name, h[0], h[1]})
+		}
+	}
+	for fam, hs := range by {
+		sort.Slice(hs, func(i, j int) bool { return hs[i].pm > hs[j].pm || hs[i].pm == hs[j].pm && hs[i].name < hs[j].name })
+		if len(hs) > 5 {
+			hs = hs[:5]
+		}
+		var parts []string
+		for _, h := range hs {
+			parts = append(parts, fmt.Sprintf("%s %d permille at %d bytes", h.name, h.pm, h.n))
+		}
+		stats.Note("alloc_closest_to_bound:"+fam, strings.Join(parts, "; "))
+	}
+	calibDump()
 }
 
 func allocNow() uint64 {
@@ -662,11 +671,11 @@ func callPlain(t *target, data []byte) (res result, err error) {
 // allocBound: the expanded length (own decompression) is only computed when the cheap part
 // of the bound does not already cover the observed allocation.
 func allocBound(t *target, data []byte, observed uint64) uint64 {
-	l := limits[t.group]
+	l := limitOf(t)
 	b := l.bound(uint64(len(data)))
-	if t.group == "mvt-gz" && (observed+screenSlack > b || 2*observed > b) {
+	if l.E != 0 && (observed+screenSlack > b || 2*observed > b) {
 		exp, _ := gunzip(data)
-		b += 320 * uint64(len(exp))
+		b += l.E * uint64(len(exp))
 	}
 	return b
 }
@@ -686,6 +695,7 @@ var noExclude = os.Getenv("C05_NO_EXCLUDE") == "1"
 type evalOpts struct {
 	measure bool // apply the allocation bound to every call (else only the rest of the oracle)
 	noSkip  bool // do not apply the known-family filters (witness tests, replay of witnesses)
+	deep    bool // calibration only: the input has a shape on which the unchanged tree is quadratic (isQuad)
 }
 
 // outcome summarises a case for the non-trivial rule.
@@ -736,11 +746,13 @@ func checkData(family string, data []byte, o evalOpts) (outcome, error) {
 		} else {
 			out.values++
 		}
-		if o.measure {
+		if o.measure && calibOn {
+			calibRecord(t, data, alloc, o.deep)
+		} else if o.measure {
 			callSeq++
 			bound := allocBound(t, data, alloc)
-			if pm := alloc * 1000 / bound; pm > headroom[t.group][0] && pm <= 1000 {
-				headroom[t.group] = [2]uint64{pm, uint64(len(data))}
+			if pm := alloc * 1000 / bound; pm > headroom[t.name][0] && pm <= 1000 {
+				headroom[t.name] = [2]uint64{pm, uint64(len(data))}
 			}
 			if alloc+screenSlack > bound || callSeq%exactEvery == 0 {
 				// exact: TotalAlloc delta around a re-run; the minimum of three counts, so that
@@ -757,7 +769,7 @@ func checkData(family string, data []byte, o evalOpts) (outcome, error) {
 				}
 				if min > bound {
 					return out, fmt.Errorf("%s(%s): allocated %d bytes for a %d-byte input; bound %s = %d",
-						t.name, short(data), min, len(data), limits[t.group].formula(t.group), bound)
+						t.name, short(data), min, len(data), limitOf(t).formula(), bound)
 				}
 			}
 		}
